@@ -71,6 +71,39 @@ def isServiceVisible (m : Mesh) (s : Svc) (ns : String) : Bool :=
   let e := serviceExportTo m s
   e.contains "*" || (e.contains "." && s.ns == ns) || e.contains ns
 
+/-- stable insertion sort (structural, so that the kernel can evaluate it on concrete witnesses);
+    for a total preorder `le` it returns what Go's stable sort returns. -/
+def insertBy {α : Type} (le : α → α → Bool) (a : α) : List α → List α
+  | [] => [a]
+  | y :: ys => if le a y then a :: y :: ys else y :: insertBy le a ys
+
+def isort {α : Type} (le : α → α → Bool) : List α → List α
+  | [] => []
+  | a :: t => insertBy le a (isort le t)
+
+theorem mem_insertBy {α : Type} (le : α → α → Bool) (a x : α) (l : List α) :
+    x ∈ insertBy le a l ↔ x = a ∨ x ∈ l := by
+  induction l with
+  | nil => simp [insertBy]
+  | cons y ys ih =>
+    unfold insertBy
+    split
+    · simp
+    · simp [ih]; constructor
+      · rintro (h | h | h)
+        · exact Or.inr (Or.inl h)
+        · exact Or.inl h
+        · exact Or.inr (Or.inr h)
+      · rintro (h | h | h)
+        · exact Or.inr (Or.inl h)
+        · exact Or.inl h
+        · exact Or.inr (Or.inr h)
+
+theorem mem_isort {α : Type} (le : α → α → Bool) (x : α) (l : List α) : x ∈ isort le l ↔ x ∈ l := by
+  induction l with
+  | nil => simp [isort]
+  | cons a t ih => simp [isort, mem_insertBy, ih]
+
 /-- `SortServicesByCreationTime` comparator: (creation time, name, namespace). -/
 def svcLe (a b : Svc) : Bool :=
   if a.ctime != b.ctime then a.ctime < b.ctime
@@ -78,7 +111,7 @@ def svcLe (a b : Svc) : Bool :=
   else !(b.ns < a.ns)
 
 /-- `SortServicesByCreationTime` (stable). -/
-def sortServices (l : List Svc) : List Svc := l.mergeSort svcLe
+def sortServices (l : List Svc) : List Svc := isort svcLe l
 
 /-- `ServiceIndex.public`: services whose effective exportTo contains `*`. -/
 def publicServices (m : Mesh) (svcs : List Svc) : List Svc :=
